@@ -335,6 +335,27 @@ def uninstall_distributed_fakes() -> None:
         setattr(distributed, k, v)
 
 
+class EndpointView:
+    """The same fake service seen through another endpoint: buckets of different endpoints are
+    different buckets, upload ids of one endpoint mean nothing on another."""
+
+    def __init__(self, s3: FakeS3, endpoint: str):
+        self._s3, self._ep = s3, endpoint
+
+    def __getattr__(self, name: str) -> Any:
+        f = getattr(self._s3, name)
+
+        def call(*a: Any, **kw: Any) -> Any:
+            if "Bucket" in kw:
+                kw["Bucket"] = f"{self._ep}|{kw['Bucket']}"
+            r = f(*a, **kw)
+            if isinstance(r, dict) and "Bucket" in r:
+                r = {**r, "Bucket": r["Bucket"].split("|", 1)[-1]}
+            return r
+
+        return call
+
+
 _S3_ORIG: Dict[str, Any] = {}
 S3: Optional[FakeS3] = None
 
@@ -346,7 +367,7 @@ def install_fake_s3(s3: FakeS3) -> None:
     if "s3_client" not in _S3_ORIG:
         _S3_ORIG["s3_client"] = S.MultiPartUpload.__dict__.get("s3_client")
     S3 = s3
-    S.MultiPartUpload.s3_client = lambda self: S3  # type: ignore
+    S.MultiPartUpload.s3_client = lambda self: S3 if not getattr(self, "endpoint_url", None) else EndpointView(S3, self.endpoint_url)  # type: ignore
 
 
 def uninstall_fake_s3() -> None:
